@@ -143,7 +143,7 @@ LEMMAS['L-CHUNK'] = _su.lemma_chunk
 PROPS['C09'] = None
 P('C09', ['loadDumpFile', 'sendAppendEntries', 'msg.append_entries', 'serializer.getTransmissionData', 'serializer.setTransmissionData',
           'serializer.setTransmissionData.none', 'serializer.setTransmissionData.file', 'serializer.serialize', 'serializer.checkSerializing',
-          'serializer.scratch-files', 'tryLogCompaction'],
+          'serializer.scratch-files', 'serializer.deserialize', 'tryLogCompaction'],
   'Snapshot load restores attributes, journal head, applied index, member set and the name table for the restored version (O9.4); the '
   'leader resets nextIndex to the entry after the snapshot point and sends snapshots only to followers behind the journal start '
   '(O9.6); a partial snapshot chunk changes neither journal nor commit index.',
